@@ -31,8 +31,8 @@ def shard(ctx, n, sub, n_random, dfs_budget, with_limits):
         # a share of the programs runs in the scheduler's normal cache mode (fresh backend per run, per-call cache
         # scopes honoured) with a smaller schedule budget; the rest with run(cache=False) on a shared backend
         normal = shape == "optout" or rnd.random() < 0.2
-        sigs = sx.explore_program(ctx, "C09", ast, rnd, caps_cfg, max(3, n_random // 2) if normal else n_random,
-                                  max(40, dfs_budget // 3) if normal else dfs_budget, stats, holder, cache=normal)
+        sigs = sx.explore_program(ctx, "C09", ast, rnd, caps_cfg, max(3, min(8, n_random // 2)) if normal else n_random,
+                                  max(40, min(150, dfs_budget // 3)) if normal else dfs_budget, stats, holder, cache=normal)
         if len(sigs) >= 2:
             ctx.nontrivial([ast, caps_cfg])
         if i < 2:
